@@ -227,7 +227,8 @@ class FactoryRun:
                 self.log("observed", names)
                 # the caller owns what it got: emptying it (a shutdown loop popping handles, say) is its business
                 # and changes nothing for the factory
-                hs.clear()
+                if hasattr(hs, "clear"):
+                    hs.clear()
             elif op == "cancel":
                 if step["h"] in self.handles:
                     self.handles[step["h"]].cancel()
